@@ -1340,6 +1340,21 @@ pub fn family(name: &str, tier: &str) -> Vec<Program> {
                 c2.ttl = None;
                 out.push(Program { cfg: c2, prefix: vec![Op::Ins(0, 1), Op::Sync], threads: vec![vec![TOp::Inv(0)], vec![TOp::Adv(1), TOp::Ins(0, 1), TOp::Adv(1), TOp::Sync, TOp::Get(0)]] });
             }
+            // (d) both halves open at once in the regime where every call first runs the
+            // pending maintenance: the invalidate has unmapped the expired key, the insert
+            // has mapped a new entry (no nodes yet), and the invalidate's own call runs
+            // the pass before it queues its Remove op
+            for (ttl, tti) in [(Some(2u32), None), (Some(2), Some(2))] {
+                let mut c = base(None, None);
+                c.ttl = ttl;
+                c.tti = tti;
+                c.beyond = false;
+                // (200 ms ticks: two of them expire the entry and stay inside the 500 ms
+                // window in which every call runs the pending maintenance)
+                c.tick_ms = 200;
+                out.push(Program { cfg: c.clone(), prefix: vec![Op::Ins(0, 1), Op::Sync, Op::Adv(2)], threads: vec![vec![TOp::Inv(0)], vec![TOp::Ins(0, 1)]] });
+                out.push(Program { cfg: c.clone(), prefix: vec![Op::Ins(0, 1), Op::Ins(1, 1), Op::Sync, Op::Adv(2)], threads: vec![vec![TOp::Inv(0), TOp::Get(1)], vec![TOp::Ins(0, 1)]] });
+            }
             // (c) a purge that has found the front entry expired, against a writer that
             // refreshes exactly that entry before the purge removes it
             for (ttl, tti) in [(Some(2u32), None), (None, Some(2u32)), (Some(2), Some(3))] {
